@@ -696,6 +696,10 @@ def apply_op(table: Any, op: Op, pre: TS, model: Model, ctx: Ctx) -> Dict[str, A
             with table.new_transaction() as tx:
                 tx.append_data([ctx.next_row()])
                 tx.append_data([ctx.next_row()])
+        elif k == "append3":  # three files in ONE manifest: two successive partial deletes rewrite it twice
+            with table.new_transaction() as tx:
+                for _ in range(3):
+                    tx.append_data([ctx.next_row()])
         elif k in ("delete_file", "delete_file_sb"):
             live = _live_files(pre, model)
             victim = live[0] if op[1] == "oldest" else live[-1]
